@@ -136,7 +136,7 @@ type State struct {
 	pc       *Term
 	mems     map[string]*Mem
 	baseTag  string
-	baseSel  *baseSel // when states with different base tags were merged: which base applies
+	baseSel  *baseSel          // when states with different base tags were merged: which base applies
 	famTags  map[string]famTag // families havocked as a whole since the last global havoc
 	allocTop *Term             // element memories: next free address
 	refTop   *Term             // object references: next free reference
@@ -223,27 +223,27 @@ type Obligation struct {
 	HypsX  []*Term
 	QHypsX []*QHyp
 	// filled by the solver stage
-	FocusFiles []string
-	Wall       float64 // wall time of all solver stages
-	anteFile   string
-	lazyFull   func()
-	lazyAnte   func()
-	lazySmall  func()
-	Result    string
-	Backend   string
-	Secs      float64
-	Model     map[string]string
-	NQ        int
-	Seq       int
-	Output    string
-	QueryFile string
-	Known     *KnownFinding
-	SmallFile string
-	FullFile  string
+	FocusFiles   []string
+	Wall         float64 // wall time of all solver stages
+	anteFile     string
+	lazyFull     func()
+	lazyAnte     func()
+	lazySmall    func()
+	Result       string
+	Backend      string
+	Secs         float64
+	Model        map[string]string
+	NQ           int
+	Seq          int
+	Output       string
+	QueryFile    string
+	Known        *KnownFinding
+	SmallFile    string
+	FullFile     string
 	AbstractFile string
-	fullNames []string
-	valNames  []string
-	bv        bool
+	fullNames    []string
+	valNames     []string
+	bv           bool
 }
 
 func newVCtx() *VCtx {
